@@ -41,6 +41,10 @@ def requests():
         Request(PDIM, fn=["stir::ProjDataInMemory::.*", "stir::detail::copy_data_.*"]),
         Request(PDFS, fn=["stir::ProjDataFromStream::.*"], config="openmp"),
         Request("src/IO/interfile.cxx", fn=["stir::write_basic_interfile_PDFS_header"]),
+        Request("src/IO/InterfileHeader.cxx", fn=["stir::InterfileHeader::.*", "stir::MinimalInterfileHeader::.*", "stir::InterfilePDFSHeader::.*"], files=["/repo/src/IO/InterfileHeader.cxx"]),
+        Request("src/IO/InterfilePDFSHeaderSPECT.cxx", fn=["stir::InterfilePDFSHeaderSPECT::.*"], files=["/repo/src/IO/InterfilePDFSHeaderSPECT.cxx"]),
+        Request("src/buildblock/interfile_keyword_functions.cxx", fn=["stir::standardise_interfile_keyword"]),
+        Request("src/IO/interfile.cxx", fn=["stir::write_interfile_.*"], files=["/repo/src/IO/interfile.cxx"]),
     ]
 
 
@@ -517,7 +521,7 @@ def run(ctx):
     ]
     reqs = requests()
     ctx.ex.prefetch(reqs)
-    pdfs, pdim, pdfs_omp, ifile = (ctx.ex.get(r) for r in reqs)
+    pdfs, pdim, pdfs_omp, ifile, hdr, hdrspect, kwu, helpers = (ctx.ex.get(r) for r in reqs)
     if pdfs is None or pdim is None:
         return
     byname = {}
@@ -545,6 +549,25 @@ def run(ctx):
         ctx.fail_broken("anchor write_basic_interfile_PDFS_header(.., const ProjDataFromStream&) not found")
     else:
         rule_g_header_segment_order(ctx, hw[0])
+    # h: every key the projection-data header writer (and the exam-information helpers it calls) emits is registered by the reader
+    # classes with the same vectorisation (the writer/reader key-table agreement of C10.a, applied to the PDFS header)
+    if hdr is not None and kwu is not None and helpers is not None and hdrspect is not None:
+        from rules.C10 import rule_a as header_keys_agree
+
+        def fl(u):
+            seen, out = set(), []
+            for f in u.functions:
+                k = (f.file, f.body.line if f.body is not None else f.line, f.qnt, f.sig)
+                if k not in seen and f.body is not None:
+                    seen.add(k)
+                    out.append(f)
+            return out
+
+        # only the helpers the projection-data header writer really calls (resolved callees)
+        called = {c.callee for f in fl(ifile) for c in f.calls() if c.callee}
+        used_helpers = [f for f in fl(helpers) if f.qn in called]
+        header_keys_agree(ctx, fl(ifile) + used_helpers, fl(hdr) + fl(hdrspect), fl(kwu), rule="C02.h-header-keys-agree", writers=("write_basic_interfile_PDFS_header", "write_interfile_"))
+        ctx.require_count("C02.h-header-keys-agree", 25)
     ctx.require_count("C02.g-header-segment-order", 12)
     ctx.require_count("C02.a-bounds", 20)
     ctx.require_count("C02.b-layout", 20)
